@@ -79,7 +79,15 @@ class UserError(Exception):
     pass
 
 
-RAISED = (ValueError, KeyError, IndexError, UserError, AssertionError, StopIteration, AttributeError, OSError)
+class AwkwardError(Exception):
+    """a user exception that does not survive a pickle round trip (its constructor needs an argument that
+    Exception.__reduce__ does not record): anything that stores exception OBJECTS in replicated state trips over it"""
+    def __init__(self, msg):
+        Exception.__init__(self)
+        self.msg = msg
+
+
+RAISED = (ValueError, KeyError, IndexError, UserError, AssertionError, StopIteration, AttributeError, OSError, AwkwardError)
 
 
 class KillNow(BaseException):
@@ -238,8 +246,9 @@ class SimMixin(object):
             sim.in_send -= 1
 
 
-def make_app_class(versions=(0,)):
-    """The replicated object: history of applied command ids.  op returns the position."""
+def make_app_class(maxver=0):
+    """The replicated object: history of applied command ids.  op returns the position.  maxver > 0 adds a replicated
+    method of that code version, so that the node supports setCodeVersion up to maxver (the method id of `op` stays 0)."""
     from pysyncobj import SyncObj, replicated
 
     class App(SyncObj):
@@ -266,6 +275,14 @@ def make_app_class(versions=(0,)):
             self.history.append(cid)
             return len(self.history)
 
+    if maxver > 0:
+        # the decorator registers `vmark_v1` in the namespace of the class body it is used in
+        class App1(App):
+            @replicated(ver=1)
+            def vmark(self):
+                return None
+        App1.__name__ = 'App'
+        return App1
     return App
 
 
@@ -297,7 +314,10 @@ class Sim(object):
         self.roles = []         # onStateChanged calls of the current step
         self.cmds = {}          # cid -> info
         self.cmd_bytes = {}     # command bytes -> cid (for REGULAR)
-        self.App = make_app_class()
+        # cfg['codever'] (default 1): the code version every node's class supports; cfg['oldcode'] = [nids] run a class that
+        # only has version 0 (mixed old/new code: such a node refuses setCodeVersion(1) and snapshots taken after the switch)
+        self.App = make_app_class(cfg.get('codever', 1))
+        self.App_old = make_app_class(0)
         self.dead = set()
         self.prim_count = 0
         self.prim_in_delete = 0
@@ -369,7 +389,9 @@ class Sim(object):
         SimTransport.sim = self
         SimTransport.pending_nid = nid
         me = addr(nid) if nid < RO_BASE else None
-        cls = self.App if issubclass(self.App, SimMixin) else type('Sim' + self.App.__name__, (SimMixin, self.App), {})
+        base = self.App_old if (nid in self.cfg.get('oldcode', ()) and self.App is not None and hasattr(self, 'App_old')
+                                and self.App.__name__ == 'App') else self.App
+        cls = base if issubclass(base, SimMixin) else type('Sim' + base.__name__, (SimMixin, base), {})
         obj = cls(me, [addr(o) for o in others], self.conf_for(nid), transportClass=SimTransport)
         self.nodes[nid] = obj
         self.dead.discard(nid)
@@ -433,7 +455,14 @@ class Sim(object):
         return pad
 
     def cid_of_command(self, command):
-        """command bytes as stored in the log -> (kind, cid)"""
+        """command bytes as stored in the log -> (kind, cid); (9, 0, 0) for bytes that are no command this harness ever
+        submitted (a damaged journal can hand back anything: the monitors then see an entry nobody stored)"""
+        try:
+            return self._cid_of_command(command)
+        except Exception:
+            return (9, 0, 0)
+
+    def _cid_of_command(self, command):
         t = command[0] if isinstance(command[0], int) else ord(command[0])
         if t == 1:
             return (1, 0, 0)
